@@ -10,6 +10,7 @@ TRANSLATORS = [
     "translate_rules",    # C15: gen/RuleTable.v, gen/IssueSites.v
     "translate_units",    # C08: gen/UnitTables.v, gen/PrefixTable.v
     "translate_profile",  # C03/C17: gen/AstTypes.v, gen/ProfileStrings.v
+    "translate_iface",    # C19: gen/IfaceTable.v (interfaceTypeToString, InterfaceType, permitsInterfaceType literals)
 ]
 
 
